@@ -466,9 +466,13 @@ func makeReplay(w *World, res *checkResult, g *oblGroup, dir, repo string) viola
 	smt := strings.TrimSuffix(path, ".json") + ".smt2"
 	writeFile(smt, w.script(o, true))
 	rep["smt_query"] = smt
-	if o.Status == "sat" {
-		model := parseModel(o.Output)
-		rep["model"] = model
+	{
+		var model map[string]string
+		if o.Status == "sat" {
+			model = parseModel(o.Output)
+			rep["model"] = model
+		}
+		// a replay driver is tried for every undischarged obligation (also when the solver only said unknown)
 		if ok, detail := tryReplay(w, res, g, o, model, repo, strings.TrimSuffix(path, ".json")); detail != nil {
 			rep["replay"] = detail
 			if ok {
